@@ -19,6 +19,8 @@ for p in selftest/mutants/*${pat}*.patch seeded/*${pat}*/patch.diff; do
   n=$((n+1))
   if [ $rc -eq 1 ] && echo "$out" | grep -q "^VIOLATION property=$prop"; then
     echo "SELFTEST $name: killed by $(echo "$out" | grep '^VIOLATION' | head -3 | sed 's/.*obligation=//' | tr '\n' ' ')"
+  elif grep -qx "$name" selftest/known_survivors.txt 2>/dev/null; then
+    echo "SELFTEST $name: SURVIVED - documented (DESIGN.md S.4 / S.6), not counted"
   else
     echo "SELFTEST $name: SURVIVED (rc=$rc)"; echo "$out" | tail -5 | sed 's/^/    /'; fail=1
   fi
